@@ -105,7 +105,9 @@ class ResetOperation:
         )
 
     def replace_params(self, new_params: Tuple[Parameter, ...]) -> "ResetOperation":
-        return replace(self, params=new_params)
+        # A reset has no parameters, and dataclasses.replace would call the custom
+        # __init__ with a `params` keyword it does not accept.
+        return ResetOperation(self.qubit_indices[0])
 
     def apply(self, amplitude_vector: ParameterizedVector) -> ParameterizedVector:
         raise RuntimeError(
